@@ -59,6 +59,16 @@ def datasets():
         # the frames come as a caller may hand them in: columns of their own (several: their order in a set depends on the hash seed),
         # permuted columns
         lay = [{'extra': True, 'colperm': [5, 2, 4, 0]}, {'extra': 'mixed'}, None][i]
+        if size == 'big':
+            # a long record: one deck seen by four ceilometers over 640 time steps (2560 hits in one slice) plus a thin one above
+            r3 = random.Random('C09big')
+            rows = []
+            for c in ('a', 'b', 'c', 'd'):
+                for t in range(640):
+                    rows.append([c, -15.0 * (639 - t), 1000 + r3.randint(-120, 120), 1])
+                    if t % 9 == 0:
+                        rows.append([c, -15.0 * (639 - t), 4000 + r3.randint(-20, 20), 2])
+            d = {'rows': rows}
         out.append(tracer.build_frame({'rows': d['rows'], 'layout': lay}))
     # data whose layering is sensitive to the mixture / slicing parameters: the canonical demo data (a group that
     # splits) and a two-level group
